@@ -26,7 +26,7 @@ def assembly_cases(seed, count, enzymes=None, **opts):
     return out
 
 
-def _snap_features(rng, n, f0, flen, tag, count, refs=0):
+def _snap_features(rng, n, f0, flen, tag, count, refs=0, origin=0):
     """feature specs over an (unrotated) record of length n whose retained fragment is
     [f0, f0+flen) circularly; a mix of uniform and boundary-snapped locations"""
     feats = []
@@ -34,7 +34,7 @@ def _snap_features(rng, n, f0, flen, tag, count, refs=0):
     for j in range(count):
         strand = rng.choice([1, -1, None])
         mode = rng.choice(["uniform", "uniform", "inside", "touch-start", "touch-end", "cross-start", "cross-end",
-                           "whole-fragment", "join-inside", "nested", "abut"])
+                           "whole-fragment", "join-inside", "nested", "abut", "at-origin"])
         parts = None
         if mode == "uniform" or flen < 2:
             parts, _ = gen.rand_feature_parts(rng, n, strand=strand)
@@ -58,6 +58,12 @@ def _snap_features(rng, n, f0, flen, tag, count, refs=0):
                 a = rng.randint(f0, f1 - 1)
             elif mode == "whole-fragment":
                 a, b = f0, f1
+            elif mode == "at-origin":
+                # starts exactly at what will be position 0 of the record handed to the API
+                a = origin
+                while a < f0 - n // 2:
+                    a += n
+                b = a + rng.randint(1, max(1, min(flen, n - 1)))
             elif mode in ("nested", "abut") and feats:
                 prev = feats[-1]["parts"][0]
                 if mode == "nested" and prev[1] - prev[0] >= 2:
@@ -85,7 +91,7 @@ def _snap_features(rng, n, f0, flen, tag, count, refs=0):
             q["citation"] = ["[%d]" % rng.randint(1, refs) for _ in range(rng.randint(1, min(3, refs)))]
             if rng.random() < 0.5:  # distinct citations only
                 q["citation"] = sorted(set(q["citation"]))
-        feats.append({"type": rng.choice(["CDS", "misc_feature", "promoter", "terminator"]), "parts": parts, "quals": q})
+        feats.append({"type": rng.choice(["CDS", "misc_feature", "promoter", "terminator", "source"]), "parts": parts, "quals": q})
     return feats
 
 
@@ -125,7 +131,11 @@ REF_POOL = 9
 
 
 def _ref(i):
-    return {"title": "Title %d" % i, "authors": "Author %d" % i, "journal": "Journal %d" % i}
+    # references 0..2 share their title (GenBank's ubiquitous "Direct Submission") and differ in authors and
+    # journal; 3 and 4 share authors; every reference is still identified by its full field tuple
+    title = "Direct Submission" if i < 3 else "Title %d" % i
+    authors = "Author 3" if i in (3, 4) else "Author %d" % i
+    return {"title": title, "authors": authors, "journal": "Journal %d" % i}
 
 
 def materialise_assembly(case):
@@ -162,8 +172,6 @@ def materialise_assembly(case):
             if nrefs or rng.random() < 0.5:
                 # pairwise distinct within a record; shared between records through the common pool
                 spec["refs"] = [_ref(j) for j in rng.sample(range(REF_POOL), nrefs)]
-        if opts["features"]:
-            spec["features"] = _snap_features(rng, n, b["frag_start"], b["frag_len"], rid, rng.randint(0, 8), refs=nrefs)
         r = 0
         if opts["rotate"]:
             if rng.random() < 0.6:
@@ -177,6 +185,9 @@ def materialise_assembly(case):
                                [b["frag_start"], b["frag_start"] + 1, (b["frag_start"] + b["frag_len"] - 1) % n])
             else:
                 r = rng.randrange(n)
+        r %= n
+        if opts["features"]:
+            spec["features"] = _snap_features(rng, n, b["frag_start"], b["frag_len"], rid, rng.randint(0, 8), refs=nrefs, origin=r)
         spec = _rotate_spec(rng, spec, r)
         spec["built"] = {"rot_left": r, "frag_start_unrotated": b["frag_start"], "frag_len": b["frag_len"]}
         specs.append(spec)
@@ -355,3 +366,46 @@ def run_registry_assembly(mat, ctx=None, with_features=False):
     if ctx is not None:
         ctx.count("registry_assemblies")
     return res
+
+
+# ----------------------------------------------------------------------------- the repository's own tests as a workload
+
+def run_repo_tests_under_monitors(ctx, which, prop):
+    """run the repository's test suite in a subprocess with the pytest plugin installing the named
+    monitors; merge what they observed into ctx.  A failing *test* is not this harness's business
+    (the baseline decides that); only monitor observations are merged."""
+    import json
+    import os
+    import subprocess
+    import sys
+    import tempfile
+    from .. import boot, core
+
+    fd, out = tempfile.mkstemp(prefix="verif-plugin-", suffix=".json")
+    os.close(fd)
+    env = dict(os.environ, MOCLO_VERIF="1", PYTHONPATH=core.VERIF + os.pathsep + os.environ.get("PYTHONPATH", ""),
+               VERIF_PLUGIN_MONITORS=",".join(which), VERIF_PLUGIN_OUT=out, VERIF_PLUGIN_PROP=prop, MOCLO_REPO=boot.REPO,
+               PYTHONWARNINGS="ignore::UserWarning:property_cached,ignore::DeprecationWarning")
+    try:
+        p = subprocess.run([sys.executable, "-m", "pytest", "-q", "-p", "mon.pytest_plugin", "-p", "no:cacheprovider", "--timeout=900", "tests"],
+                           cwd=boot.REPO, env=env, stdout=subprocess.PIPE, stderr=subprocess.STDOUT, timeout=1800)
+        with open(out) as f:
+            txt = f.read()
+        if not txt:
+            raise core.Inconclusive("pytest plugin wrote nothing: " + p.stdout.decode()[-400:])
+        d = json.loads(txt)
+    finally:
+        os.unlink(out)
+    for k, v in d["counters"].items():
+        ctx.counters[k] += v
+    for k, h in d["hists"].items():
+        for kk, v in h.items():
+            ctx.hists[k][kk] += v
+    for v in d["violations"]:
+        ctx.viol_by_mech[v["mechanism"]] += 0
+        if len(ctx.violations) < ctx.MAX_VIOL:
+            ctx.violations.append(v)
+    for k, v in d["viol_by_mech"].items():
+        ctx.viol_by_mech[k] += v
+    ctx.count("repo_test_suite_runs")
+    ctx.hist("repo_test_suite_exit", d.get("pytest_exitstatus"))
